@@ -83,6 +83,11 @@ def run(tier):
             fam = [r2.random() < 0.6 for _ in range(5)]
             jobs.append((bs, st, long_mask, r2.random() < 0.3, fam, mode, fmt))
 
+    # an unchanged empty line written without its leading blank (git's diff.suppressBlankEmpty, GNU diff
+    # --suppress-blank-empty): a recorded finding, see known_findings.json
+    EMPTY_JOB = ([["zero", "zero", "minus", "plus", "zero"]], [(5, 7)], [False], False, [False], "unified", "default")
+    jobs.append(EMPTY_JOB)
+
     def args_for(mode, fmt):
         if mode == "unified":
             return gitskin.rs_args(200) + ["--line-numbers"] + FORMATS[fmt]
@@ -98,6 +103,10 @@ def run(tier):
     def one(job):
         bs, st, long_mask, omit, fam, mode, fmt = job
         data, hunks = make_input(bs, st, long_mask, omit, fam)
+        if job is EMPTY_JOB:
+            lines = data.split(b"\n")
+            lines[6] = b""                       # the second unchanged line becomes an empty line
+            data = b"\n".join(lines)
         return data, hunks, core.run_delta(args_for(mode, fmt), data)
 
     res = core.pmap(one, jobs)
@@ -142,6 +151,10 @@ def run(tier):
         bs, st, long_mask, omit, fam, mode, fmt = jobs[f["run"]]
         data, hunks, r = res[f["run"]]
         shape = "|".join("".join(c[0] for c in b) for b in bs)
+        if jobs[f["run"]] is EMPTY_JOB:
+            V.violation("empty-context-line", "an unchanged empty line written without its leading blank is not counted: the numbers after it are one too small",
+                        {"run": r.to_json(), "failure": f})
+            continue
         V.violation(f"{f['why']}:{mode}:{fmt}:{shape}:{st}", f"{f['why']} (row {f['row']}) in {mode}/{fmt} for hunks {shape} starting at {st}",
                     {"bodies": bs, "starts": st, "mode": mode, "format": fmt, "run": r.to_json(), "failure": f})
     rc = V.finish()
